@@ -805,6 +805,13 @@ class MacroProgram(ElementProgram):
                 name.lower() in self.implicit_i18n_attributes
             )
 
+            # A computed value cannot be protected without delimiters:
+            # an attribute written ``name=value`` is quoted once its
+            # value is dynamic.
+            if eq and not quote and (
+                    expr is not None or '${' in (text or '')):
+                quote = '"'
+
             char_escape = ('&', '<', '>', quote)
             msgid = I18N_ATTRIBUTES.get(name, missing)
 
